@@ -1,5 +1,6 @@
 # Registry fragment for C28 and C30 (exec'd with PROPS, CLAIMS, H, NOT_APPLICABLE, SMT_SERVES in scope): the wrappers installed by inspector_handle_register.
 import jobs_c30 as _jobs_c30
+import jobs_e3
 _WRAP_ASSUME = ["closures are located by what they call (Inspector::selfdestruct / call / create / ... ) among inspector_handle_register::{closure#k}; the wrapped instruction or "
                 "previous handler is the `dyn Fn` the closure received or captured; hooks of the inspector are uninterpreted (their results are free variables)",
                 "z3 4.8.12 and cvc5 1.0 agree; a sat answer or an unrecognised shape is replayed natively (`selfdestruct_notify`, `inspector_transparency`) before it is reported"]
@@ -26,23 +27,28 @@ CLAIMS["C30"] = dict(
 )
 PROPS["C28"] = dict(
     functions=["revm::inspector::handler_register::inspector_instruction (the step / step_end wrapper put around every instruction)",
-               "the closures inspector_handle_register installs for execution.call, create, eofcreate, insert_call_outcome, insert_create_outcome, insert_eofcreate_outcome: every path"],
+               "the closures inspector_handle_register installs for execution.call, create, eofcreate, insert_call_outcome, insert_create_outcome, insert_eofcreate_outcome: every path",
+               "revm::inspectors::GasInspector::{initialize_interp, step, step_end, call_end, create_end} (crates/revm/src/inspector/gas.rs): every path"],
     bounds="every path of the seven bodies x (inspector answered the call/create itself or not) x (step left a result or not); the instruction pointer at entry is a free variable",
     outside="the whole-transaction statement (result, gas, logs, state equal with and without inspector): only that each wrapper hands control on unchanged is decided; the LOG and "
-            "SELFDESTRUCT wrappers' extra notifications, last_frame_return (matches on the frame kind; its balance is under C29), the bodies of the shipped inspectors "
-            "(GasInspector, TracerEip3155) and whether they really only observe, the table update mechanics of update_all / update_boxed",
+            "SELFDESTRUCT wrappers' extra notifications, last_frame_return (matches on the frame kind; its balance is under C29), the body of TracerEip3155 beyond its delegation to "
+            "GasInspector (formatting, output), NoOpInspector (no code), the table update mechanics of update_all / update_boxed",
     assumptions=_WRAP_ASSUME + ["`observing` = Inspector::call/create/eofcreate answer None, the *_end hooks return the outcome they were given, step leaves instruction_result at Continue: "
                                "under these the decided facts make every wrapper the identity around the wrapped handler"],
-    jobs=[dict(name="e3::inspector_wrapper_transparency", fn=_jobs_c30.run_inspector_transparency)],
+    jobs=[dict(name="e3::inspector_wrapper_transparency", fn=_jobs_c30.run_inspector_transparency),
+          dict(name="e3::gas_inspector_only_observes", fn=_jobs_c30.run_gas_inspector_observes),
+          dict(name="e3::inspector_stack_balance", fn=jobs_e3.run_inspector_balance)],  # shared with C29: an unbalanced input stack makes a wrapper panic
 )
 CLAIMS["C28"] = dict(
     text="Each wrapper that inspector_handle_register puts around the execution handlers and around every instruction is executed symbolically from MIR (provenance flow, every path) "
          "and z3/cvc5 decide that it is transparent: inspector_instruction calls step once (with the instruction pointer moved back by one, as documented), then - unless step left a "
          "result - runs the wrapped instruction exactly once with the instruction pointer and arguments it would have had without an inspector, then step_end once; the call / create "
          "/ eofcreate wrappers show the inspector the very inputs object they hand on, invoke the previous handler exactly once with their own context and inputs unless the inspector "
-         "answered, and return its result unchanged; the three outcome wrappers hand the previous handler their own arguments and what the *_end hook returned for the outcome given.",
-    note="Partial: transparency of the seven wrappers, which is the mechanism the property rests on; the end-to-end equality of results for whole transactions, the shipped inspectors' "
-         "own bodies, and the LOG / SELFDESTRUCT notification wrappers (C30) are outside.",
+         "answered, and return its result unchanged; the three outcome wrappers hand the previous handler their own arguments and what the *_end hook returned for the outcome given. "
+         "The shipped GasInspector is shown to only observe: its step hooks never store into the interpreter or context, and call_end / create_end return the outcome they were given, "
+         "touching it only by spend_all under is_error(result). The input-stack balance of the wrappers (shared with C29) rules out the empty-stack panic.",
+    note="Partial: transparency of the seven wrappers, which is the mechanism the property rests on; the end-to-end equality of results for whole transactions, the tracer's "
+         "own body, and the LOG / SELFDESTRUCT notification wrappers (C30) are outside.",
     technique="MIR provenance-flow symbolic execution + SMT path queries (z3+cvc5) of inspector_instruction and six handler closures; native differential replay with an observing inspector",
     engine="smt-mir", design_ref="DESIGN.md §5 C28",
 )
